@@ -23,7 +23,8 @@ RULE = (
     "released it on the same tile."
 )
 ASSUMPTIONS = [
-    "gate granularity: lock attempt / read / write start / write middle / release; kernel-level atomicity of O_CREAT|O_EXCL is trusted",
+    "gate granularity: lock attempt / read / write start / write middle / release / after release, plus every file-system call the pyramid module itself makes while a read-modify-write is in progress; kernel-level atomicity of O_CREAT|O_EXCL is trusted",
+    "one case in six injects one failure (EDQUOT) into the creation of one updater's lock marker: that update may fail visibly; the final tile must still equal the completed writes applied one after another",
     "float32 tiles; NaN = undefined",
 ]
 
@@ -137,10 +138,14 @@ def exec_case(case):
             progs = [{"module": "vt.checks.c10", "func": "child_program", "args": [d, fmt, ups]} for ups in case["updaters"]]
         else:
             progs = [child_program(d, fmt, ups) for ups in case["updaters"]]
-        run = GatedRun(progs, fresh_interpreters=fresh)
+        # a transient fault at the lock-acquire step of one updater: creating its lock marker fails once (disk quota). The
+        # update may fail - visibly - but an update that does go through still has to be applied as if alone
+        fault = case.get("lock_fault")
+        run = GatedRun(progs, fresh_interpreters=fresh, child_opts={fault[0] % len(progs): {"lock_fault": fault[1]}} if fault else None)
         try:
             res = run.run(case["schedule"])
-            errors = [(c.idx, c.error, [e for e in c.events if e.startswith("traceback")][-1:]) for c in run.children if c.error]
+            errors = [(c.idx, c.error, [e for e in c.events if e.startswith("traceback")][-1:]) for c in run.children
+                      if c.error and not (fault and c.idx == fault[0] % len(progs) and "injected by the harness" in c.error and "lock-fault-injected" in c.events)]
             order = list(run.order)
             unfinished = [c.idx for c in run.children if not c.finished]
         except RuntimeError as e:
@@ -199,6 +204,8 @@ def exec_case(case):
     cls = [fmt, f"updaters{len(progs)}", "overlap" if res["overlap_steps"] else "no-contention"]
     if fresh:
         cls.append("freshly-started-interpreters")
+    if fault:
+        cls.append("fault-at-lock-acquire")
     if any(u["idiom"] == "direct" for ups in case["updaters"] for u in ups):
         cls.append("direct-buffer-write")
     return Outcome(classes=cls, nontrivial=res["overlap_steps"] > 0, info={"steps": res["steps"], "contended_steps": res["overlap_steps"]})
@@ -221,6 +228,8 @@ def strat(draw, tier):
     case = {"format": draw(st.sampled_from(["npy", "fits"])), "updaters": ups, "schedule": draw(st.lists(st.integers(0, 11), max_size=120))}
     if draw(st.sampled_from([False] * 11 + [True])):
         case["fresh_interpreters"] = True
+    if draw(st.integers(0, 5)) == 0:
+        case["lock_fault"] = [draw(st.integers(0, 3)), draw(st.integers(1, 3))]
     return case
 
 
